@@ -64,6 +64,46 @@ var (
 	fsErr  error
 )
 
+const convCRD = `apiVersion: apiextensions.k8s.io/v1
+kind: CustomResourceDefinition
+metadata:
+  name: converted.test.crossplane.io
+spec:
+  group: test.crossplane.io
+  names:
+    kind: Converted
+    listKind: ConvertedList
+    plural: converted
+    singular: converted
+  scope: Cluster
+  conversion:
+    strategy: Webhook
+    webhook:
+      conversionReviewVersions: ["v1"]
+      clientConfig:
+        service:
+          name: crossplane-webhooks
+          namespace: crossplane-system
+          path: /convert
+  versions:
+  - name: v1
+    served: true
+    storage: true
+    schema:
+      openAPIV3Schema:
+        type: object
+        x-kubernetes-preserve-unknown-fields: true
+`
+
+// withConversionCRD layers a core CRD that uses webhook conversion over the
+// repo's CRD directory (the repo ships none in this version, which would leave
+// the CA-bundle clause for CRDs unexercised).
+func withConversionCRD(base afero.Fs) afero.Fs {
+	layer := afero.NewMemMapFs()
+	_ = afero.WriteFile(layer, "/crds/zz_converted.test.crossplane.io.yaml", []byte(convCRD), 0o644)
+	return afero.NewCopyOnWriteFs(base, layer)
+}
+
 func crdFs() (afero.Fs, error) {
 	fsOnce.Do(func() {
 		baseFs = afero.NewMemMapFs()
@@ -157,6 +197,35 @@ func (w *world) steps() []initializer.Step {
 	return steps
 }
 
+// runConcurrent runs two initialisations at the same time (two replicas
+// starting together), interleaved by the scheduler.
+func (w *world) runConcurrent(faults bool) {
+	w.s.Probe("concurrent-init-runs")
+	for i := 0; i < 2; i++ {
+		w.runs++
+		c := simapi.NewClient(w.st, w.s, w.proc, "init")
+		c.Faults = faults
+		w.s.Go(w.proc, fmt.Sprintf("init#%d", w.runs), func(ctx context.Context) {
+			_ = initializer.New(c, logging.NewNopLogger(), w.steps()...).Init(ctx)
+		}, nil)
+		w.res.Counters["init-runs"]++
+	}
+	for i := 0; i < 8000; i++ {
+		w.s.Wait()
+		if w.s.LiveTasks() == 0 {
+			break
+		}
+		if !w.s.StepOnce(nil, 1) {
+			break
+		}
+		w.observe()
+	}
+	w.s.Wait()
+	if w.proc.Dead {
+		w.s.Restart(w.proc)
+	}
+}
+
 // runInit runs one `crossplane core init` as a task; returns true if it completed without error.
 func (w *world) runInit(faults bool) bool {
 	w.runs++
@@ -225,6 +294,10 @@ func (prop) Run(t *testing.T, s *sim.Sim, res *runner.Result) {
 	}
 	tp := s.Tape
 	w.webhooks = tp.Next(4) > 0
+	if w.webhooks && tp.Next(2) == 0 {
+		w.fs = withConversionCRD(w.fs)
+		s.Probe("core-crd-with-webhook-conversion")
+	}
 	// requested packages
 	pick := func() []string {
 		var out []string
@@ -272,8 +345,17 @@ func (prop) Run(t *testing.T, s *sim.Sim, res *runner.Result) {
 
 	// ---- init runs that may be aborted
 	s.Phase = "chaos"
+	if tp.Next(3) == 0 {
+		// two replicas start together
+		w.runConcurrent(true)
+		w.observe()
+	}
 	for i := 0; i < faultRuns && len(s.Violations) == 0; i++ {
-		w.runInit(true)
+		if tp.Next(4) == 0 {
+			w.runConcurrent(true)
+		} else {
+			w.runInit(true)
+		}
 		w.observe()
 	}
 	// ---- fault-free runs
